@@ -989,6 +989,7 @@ const (
 	nxReleaseJob
 	nxAddNonVoting
 	nxJoin
+	nxRemoveNode
 )
 
 func nxev(kind int, a, b uint32) uint32 { return uint32(kind)<<24 | a<<12 | b }
@@ -1002,7 +1003,7 @@ func (c *nxCluster) describe(e uint32) string {
 		nxTick: "Tick", nxWrite: "Write@", nxRead: "ReadIndex@", nxLookup: "Lookup(op)", nxCrash: "CrashRestart", nxCrashIn: "CrashInDelivery",
 		nxHoldApply: "HoldApplyWorker", nxReleaseApply: "ReleaseApplyWorker", nxTransfer: "LeaderTransfer", nxStop: "StopShard",
 		nxWriteShort: "WriteShortTimeout@", nxReadShort: "ReadIndexShortTimeout@", nxPartition: "Partition(groupA mask)", nxHeal: "HealPartition", nxHoldJob: "HoldSnapshotJobs", nxReleaseJob: "ReleaseSnapshotJob",
-		nxAddNonVoting: "RequestAddNonVoting@", nxJoin: "StartJoiner"}
+		nxAddNonVoting: "RequestAddNonVoting@", nxJoin: "StartJoiner", nxRemoveNode: "RequestDeleteReplica@"}
 	return fmt.Sprintf("%s(%d,%d)", names[k], a, b)
 }
 
@@ -1053,6 +1054,12 @@ func (c *nxCluster) scriptEvent(it string) uint32 {
 	case 'J':
 		fmt.Sscanf(it[1:], "%d", &a)
 		return nxev(nxJoin, a, 0)
+	case 'D':
+		if it == "D*" {
+			break
+		}
+		fmt.Sscanf(it[1:], "%d:%d", &a, &b)
+		return nxev(nxRemoveNode, a, b)
 	case 'w':
 		fmt.Sscanf(it[1:], "%d", &a)
 		return nxev(nxWriteShort, a, 0)
@@ -1422,6 +1429,14 @@ func (c *nxCluster) Step(e uint32) (msg string) {
 			break
 		}
 		if _, err := h.node.requestAddNonVotingWithOrderID(uint64(b), fmt.Sprintf("peer:%d", 12345+b), 0, 1000); err == nil {
+			c.guarded(h, 0, func() { c.stepWorker(h) })
+		}
+	case nxRemoveNode:
+		h := c.byID[uint64(a)]
+		if !h.up {
+			break
+		}
+		if _, err := h.node.requestConfigChange(pb.RemoveNode, uint64(b), "", 0, 1000); err == nil {
 			c.guarded(h, 0, func() { c.stepWorker(h) })
 		}
 	case nxJoin:
